@@ -242,6 +242,32 @@ def parse_one(T, v):
     return oracle.reject_raw(oracle.outcome(utype.type_transform, v, T))
 
 
+def spell_call(sig, assign, spell):
+    """(args, kwargs) of the call that the logical assignment and its spelling describe (no oracle work)"""
+    args, kw = [], {}
+    for p in sig["params"]:
+        n, k = p["name"], p["kind"]
+        if k == "varargs":
+            args += [codec.decode(v) for v in assign.get(n, [])]
+        elif k == "varkw":
+            for key, v in assign.get(n, []):
+                kw[key] = codec.decode(v)
+        elif n in assign:
+            v = codec.decode(assign[n])
+            how = spell.get(n, "position" if k in ("posonly", "pos") else "name")
+            if k == "posonly" or (how == "position" and k == "pos"):
+                args.append(v)
+            elif how == "alias" and p.get("alias"):
+                kw[p["alias"]] = v
+            elif how == "alias" and p.get("alias_from"):
+                kw[p["alias_from"][0]] = v
+            elif how == "case" and p.get("ci"):
+                kw[n.upper()] = v
+            else:
+                kw[n] = v
+    return args, kw
+
+
 def drive(f, args, kw, wrapper, script):
     """run the callable according to the wrapper kind -> ('ok', {'ret':..., 'yielded': [...]} ) or ('exc', e)"""
     res = {"yielded": [], "ret": None}
